@@ -103,6 +103,14 @@ func ChildMain(dir, scriptPath string) int {
 		_ = s.Blobs[i].Content()
 	}
 	ctx := context.Background()
+	if s.Final.Kind == "init" {
+		// the operation under test is the initialisation itself
+		mark(MarkBegin)
+		_, err := oci.New(dir)
+		mark(MarkEnd)
+		os.Stdout.WriteString("F init " + ErrName(err) + "\n")
+		return 0
+	}
 	st, err := oci.New(dir)
 	if err != nil {
 		fmt.Println("CHILD-ERROR new:", err)
